@@ -388,6 +388,33 @@ def run(ctx):
     ctx.borrow("C02", ["R02.6"], "R08.9", "the derived ordering of Priority puts Urgent last = greatest", keys=["priority-order"])
 
 
+    # ---- R08.10 the handler's view of the batch is the whole batch
+    ctx.rule("R08.10", "Handler::signals() / paths() / completions() range over every event of the batch: an interrupt collected behind a pending event is seen by the "
+                       "action handler (an urgent event is pushed onto the set already being collected, it does not arrive alone)")
+    try:
+        HD = "watchexec::action::handler::Handler"
+        PARTIAL = ("first", "last", "take", "skip", "nth", "get", "step_by", "take_while", "skip_while", "next", "next_back", "split_first", "split_last",
+                   "find", "position", "max", "min", "peekable", "chunks", "windows")
+        for acc in ("signals", "paths", "completions"):
+            af = ctx.anchor_fn("R08.10", HD + "::" + acc)
+            seen = []
+            for g in [af] + list(facts.callable_bodies(af)):
+                if g.crate.name != "watchexec":
+                    continue
+                for cd, nd in thir.calls_in(thir.root(g)):
+                    seen.append((strip_generics(cd), [pathx.desc(a).replace("^", "") for a in nd["a"]]))
+            whole = [c for c, a in seen if c.split("::")[-1] in ("iter", "into_iter") and a and a[0] in ("self.events", "Arc::as_ref(self.events)", "Deref::deref(self.events)")]
+            partial = sorted({c.split("::")[-1] for c, a in seen if c.split("::")[-1] in PARTIAL})
+            through = [c for c, a in seen if any(x == "Event::" + acc or x.endswith("::Event::" + acc) for x in a) or c.endswith("event::Event::" + acc)]
+            ctx.require(bool(whole) and not partial and bool(through), "R08.10", "handler-accessor-whole-batch:" + acc,
+                        "Handler::%s() iterates all of self.events through Event::%s" % (acc, acc), af.loc(af.line), detail=str(seen)[:300],
+                        fail="Handler::%s() no longer ranges over the whole batch (%s): what an event collected behind another one carries - e.g. the interrupt that must "
+                             "end watchexec - is invisible to the action handler" % (acc, "uses " + ", ".join(partial) if partial else "source is not self.events.iter()"))
+    except Skip:
+        pass
+
+
+
 def jobrules_to_spawnable(ctx):
     c = ctx.facts.fns_matching(r"command::.*to_spawnable$", crate=SUP)
     return ctx.anchor_one("R08.6", "Command::to_spawnable", c)
